@@ -57,6 +57,8 @@ def dirs_worker(arg):
     c, rejected = st["case"], st["out"]
     all_dirs = [("w", "a"), ("w", "b"), ("w", "a", "n"), ("w", "Ab"), ("w", "aB"), ("v", "a"), ("w", "B")]
     fs = {_dname(d) + "/T.1.0.dsdl": "@sealed\n" for d in all_dirs}
+    for d in all_dirs:      # a reference inside every namespace: a directory listed twice under two spellings would be ambiguous
+        fs[_dname(d) + "/U.1.0.dsdl"] = "T.1.0 t\n@sealed\n"
     diff = []
     with dsdlio.Tree(fs, "c10d") as tr:
         os.makedirs(tr.path("links"), exist_ok=True)
@@ -88,9 +90,9 @@ def dirs_worker(arg):
         if rejected:
             exp = ("rejected",)
         else:
-            lst = [("%s.T" % name, _dname(rd) + "/T.1.0.dsdl")]
+            lst = [("%s.T" % name, _dname(rd) + "/T.1.0.dsdl"), ("%s.U" % name, _dname(rd) + "/U.1.0.dsdl")]
             if rd == ("w", "a"):
-                lst.append(("a.n.T", "w/a/n/T.1.0.dsdl"))
+                lst += [("a.n.T", "w/a/n/T.1.0.dsdl"), ("a.n.U", "w/a/n/U.1.0.dsdl")]
             exp = ("ok", sorted(lst))
         if got[0] != exp[0] or (exp[0] == "ok" and got[1] != exp[1]):
             diff.append(("read_namespace with these directory arguments", got, exp))
